@@ -1,4 +1,5 @@
 import OsmVerif.Model.ScanState
+import OsmVerif.Model.PipelineStop
 /-!
 # C07 — Close and cancellation stop PBF/XML scans promptly and cleanly
 
@@ -13,6 +14,9 @@ observes (counting reader, goroutine dump, race detector).
 -/
 namespace OsmVerif.Props.C07
 open OsmVerif.Gen.Pbf OsmVerif.Model.ScanState OsmVerif.Model.PbfScan
+
+/-- the statement right after `line` -/
+def segmentAfter (body : List String) (line : String) : Option String := ((body.dropWhile (· ≠ line)).drop 1).head?
 
 /-! ## all call histories -/
 
@@ -124,6 +128,36 @@ theorem consumer_state_private :
     startBody.contains "dec.sErr = dec.ctx.Err()" = true ∧
     (match ifBranches nextBody "if !ok || cd.Err == io.EOF {" with
      | some (t, _) => t.contains "if !ok && dec.sErr != nil {" | none => false) = true := by
+  decide +kernel
+
+/-! ## all goroutines end -/
+
+open OsmVerif.Model.PipelineStop in
+/-- **after the context is cancelled every goroutine of the pipeline ends, under every schedule**: in the
+    transition system of `Model.PipelineStop` (reader at its loop head or in its select, decoders draining
+    their queues, serializer in either select; any queue contents) every step lowers a measure, so no run is
+    longer than the measure of its first state; while a goroutine is alive some step is enabled; hence a run
+    that cannot be extended has ended reader, all decoders and serializer — `wg.Wait()` in Close returns.
+    Fairness of `select` is needed only for receives from already closed output queues and is explicit in
+    the state (`spurious`). -/
+theorem goroutines_end (n : Nat) (hn : 0 < n) (s s' : St) (as : List Step) (hc : Consistent s) (h : Run n s as s')
+    (hmax : ∀ a, step n s' a = none) : allDone n s' ∧ as.length ≤ mu n s :=
+  ⟨maximal_run_ends n hn s s' as hc h hmax, by have := run_bounded n s s' as h; omega⟩
+
+def countOf (l : List String) (x : String) : Nat := (l.filter (· = x)).length
+
+/-- the transition system's premises in the source: every blocking channel operation of `Start`'s goroutines
+    is inside a `select` with a `<-dec.ctx.Done()` branch (four selects, four Done branches, no other branch
+    kinds); the reader closes every input queue when it returns, every decoder ranges over its input queue
+    and closes its output queue when it returns, the serializer closes the consumer's queue and cancels -/
+theorem blocking_ops_have_done_branch :
+    countOf startBody "select {" = 4 ∧ countOf startBody "case <-dec.ctx.Done():" = 4 ∧
+    countOf startBody "case output <- out:" = 1 ∧ countOf startBody "case input <- pair:" = 1 ∧
+    countOf startBody "case p = <-output:" = 1 ∧ countOf startBody "case dec.serializer <- p:" = 1 ∧
+    (startBody.filter fun l => hasPrefix "case " l).length = 8 ∧
+    startBody.contains "defer close(output)" = true ∧ startBody.contains "for p := range input {" = true ∧
+    segmentAfter startBody "for _, input := range dec.inputs {" = some "close(input)" ∧
+    segmentAfter startBody "close(dec.serializer)" = some "dec.cancel()" := by
   decide +kernel
 
 /-! ## non-vacuity -/
